@@ -88,6 +88,16 @@ def rng(salt=''):
     return random.Random('%s/%s' % (seed(), salt))
 
 
+def norm_text(t):
+    return ' '.join(str(t).split())
+
+
+def keep(text):
+    """Replay filter: with VERIF_ONLY set (by --replay) only the input with that text is driven."""
+    only = os.environ.get('VERIF_ONLY')
+    return only is None or norm_text(text) == norm_text(only)
+
+
 def sig(obj):
     return hashlib.sha256(json.dumps(obj, sort_keys=True, default=str).encode()).hexdigest()[:16]
 
